@@ -173,6 +173,27 @@ func Child(seed int64, tier, stateFile string, rounds int, saveMs int, compress 
 			return
 		}
 	}
+	// ballast: thousands of never-spent outputs make the snapshot several 64 KiB chunks long, so that
+	// a slow snapshot writer is still busy when the next block arrives (=> abort path)
+	for k := 0; k < 2; k++ {
+		view := g.View(s.Ref.Tip)
+		av := g.Spendable(view, s.Ref.Tip.Height+1, true)
+		if len(av) == 0 {
+			break
+		}
+		c := view[av[0]]
+		nout := 3000
+		outs := make([]refchain.TxOut, nout)
+		per := c.Value / 2 / uint64(nout)
+		for i := range outs {
+			outs[i] = refchain.TxOut{Value: per, Script: g.ScriptOf(chainsim.KOther, r)}
+		}
+		outs = append(outs, g.OutTrue(c.Value-per*uint64(nout)-1000))
+		t := g.Spend([]refchain.OutPoint{av[0]}, []refchain.Coin{c}, outs, 1, 0, nil, -1)
+		if rr, ok := offer(g.Build(chainsim.BlockSpec{Parent: s.Ref.Tip, Txs: []*refchain.Tx{t}, Fees: 1000}), "ballast"); !ok || rr.Stage != "connected" {
+			return
+		}
+	}
 	for round := 0; round < rounds; round++ {
 		// 1. fan-out: one transaction with hundreds of outputs
 		view := g.View(s.Ref.Tip)
